@@ -201,12 +201,14 @@ func (e *Engine) siteName(kind string, in ssa.Instruction) string {
 	if m == nil {
 		m = map[ssa.Instruction]int{}
 		vc.siteOrd[key] = m
-		// deterministic numbering over the whole function
-		n := 0
+		// deterministic numbering: ordinal among the instructions of the same SSA instruction type in the function
+		// (the k-th slice expression, the k-th call, ...), so that unrelated edits do not renumber the sites
+		cnt := map[string]int{}
 		for _, b := range fn.Blocks {
 			for _, i2 := range b.Instrs {
-				m[i2] = n
-				n++
+				t := fmt.Sprintf("%T", i2)
+				m[i2] = cnt[t]
+				cnt[t]++
 			}
 		}
 	}
